@@ -104,6 +104,18 @@ def replay_pit_batch(ctx, metrics, cases, k):
         except Exception as e:
             ctx.violation("pit:column-shape", "%r for an [n,1] column of observations" % e, {"obs": obs.tolist(), "ens": ens.tolist()})
             return
+    # the PIT is a function of how many members lie below / at the observation: unchanged by a common shift to magnitudes where
+    # neighbouring integers differ by less than 1e-5 relative (2^20 and 2^40: exact in float64)
+    for S in (2.0 ** 20, 2.0 ** 40):
+        try:
+            ps, _ = metrics.pit(obs + S, ens + S, random=False)
+        except Exception as e:
+            ctx.violation("pit:shift-invariance", "%r after adding %g to observations and members" % (e, S), {"obs": obs.tolist(), "ens": ens.tolist()})
+            return
+        if not np.array_equal(np.asarray(ps), np.asarray(p), equal_nan=True):
+            ctx.violation("pit:shift-invariance", "pit %s after adding %g to observations and members, %s before" %
+                          (np.asarray(ps).tolist(), S, np.asarray(p).tolist()), {"obs": obs.tolist(), "ens": ens.tolist(), "shift": S})
+            return
     for i, c in enumerate(cases):
         if not (0 <= p[i] <= 1) or (c["tied"] == 0 and not rat_close(p[i], c["rank"]) and False):
             ctx.violation("pit:range", "pit=%r" % p[i], {"obs": obs.tolist(), "ens": ens.tolist(), "row": i})
@@ -253,8 +265,25 @@ def code_to_spec(ctx, metrics, cstat, ncases):
             ens = rng.integers(0, hi + 1, size=(n, m)).astype(float)
             if rng.random() < 0.2:
                 ens[1] = ens[0]
+            if rng.random() < 0.3 and n >= 4:
+                ens[3] = ens[2]                       # several forecasts carrying the same ensemble (a climatology issued repeatedly)
+                ens[n - 1] = ens[0]
             fmat, ranks = np.zeros((n, n)), np.zeros(n)
             cstat.ensrank(1e-6, ens.copy(), fmat, ranks)
+            # the score itself through the public function: the rank correlation between the observations and THESE ranks
+            # (which TLC validates against the pairwise mid-rank definition below)
+            obs_t = rng.permutation(n).astype(float)
+            if len(set(ranks)) > 1:
+                with warnings.catch_warnings(), np.errstate(all="ignore"):
+                    warnings.simplefilter("ignore")
+                    try:
+                        Dt = float(metrics.dscore(obs_t, ens.copy()))
+                        expDt = (np.corrcoef(obs_t, ranks)[0, 1] + 1) / 2
+                        if not abs(Dt - expDt) <= 1e-9:
+                            ctx.violation("dscore:value", "D=%r, rank correlation of the Weigel-Mason ranks gives %r" % (Dt, expDt),
+                                          {"ens": ens.astype(int).tolist(), "obs": obs_t.tolist()})
+                    except Exception as e:
+                        ctx.violation("dscore:exception", repr(e), {"ens": ens.astype(int).tolist(), "obs": obs_t.tolist()})
             recs.append({"kind": "rank", "ens": ens.astype(int).tolist(),
                          "fmat": [[to_rat(fmat[i, j], dmax=2 * m * m) if i < j else [0, 1] for j in range(n)] for i in range(n)],
                          "ranks": [to_rat(v, dmax=2) for v in ranks]})
